@@ -5,12 +5,16 @@ mod c03;
 mod c04;
 mod c05;
 mod c12;
+mod c14;
+mod c14_gen;
+mod c14_jar;
 mod c19;
 mod choice;
 mod engine;
 mod refdiff;
 mod refmap;
 mod refmvn;
+mod refnest;
 mod rng;
 mod simdir;
 mod simio;
@@ -86,6 +90,7 @@ fn dispatch(a: &Args, digest_only: bool) -> i32 {
         "C04" => drive(&c04::C04, a, digest_only),
         "C05" => drive(&c05::C05, a, digest_only),
         "C12" => drive(&c12::C12, a, digest_only),
+        "C14" => drive(&c14::C14, a, digest_only),
         "C19" => drive(&c19::C19, a, digest_only),
         other => {
             eprintln!("harness error: no engine for {other}");
